@@ -333,6 +333,10 @@ Definition do_resolve (root : Z) (path : bytes) (nosym nofollow : bool) (stack :
   rootdup <-? os (dup_cloexec root) ;;
   let st := {| w_root := rootdup; w_cur := rootdup; w_exp := [];
                w_refs := [(rootdup, 2%nat)]; w_stack := stack |} in
+  if EMPTY_PATH_IS_ENOENT && is_nil path then
+    (* an empty path is ENOENT, like openat2(2): drop(root); Partial { current, "", ENOENT } *)
+    r <- ret_partial st None [] (OsError ENOENT) ;; Ret (Ok r)
+  else
   r <- walk (N.to_nat MAX_SYMLINK_TRAVERSALS) nosym nofollow st (raw_components path) ;;
   Ret (Ok r).
 
